@@ -20,6 +20,10 @@ def sf_isbytes(ev, v):
     return VBool(ev.eng.isinst(ev.st, v, 'bytes'))
 
 
+def sf_isstr(ev, v):
+    return VBool(ev.eng.isinst(ev.st, v, 'str'))
+
+
 def sf_isnone(ev, v):
     if isinstance(v, VNone):
         return VBool(True)
@@ -135,6 +139,9 @@ def sf_match(ev, s, i, m):
 
 def sf_fresh_since(ev, r):
     """r was allocated after the pre-state"""
+    if isinstance(r, VDyn):
+        z = z3.If(T.Val.is_VL(r.z), T.Val.lval(r.z), z3.If(T.Val.is_VR(r.z), T.Val.rval(r.z), T.Val.oval(r.z)))
+        return VBool(z >= ev.old.heap['next'])
     return VBool(r.z >= ev.old.heap['next'])
 
 
@@ -308,6 +315,20 @@ def sf_same(ev, a, b):
         if isinstance(x, VFunc) and x.tag == 'lambda':
             return VBool(a is b)     # a closure created by the code is a fresh object
     return VBool(to_val(a) == to_val(b))
+
+
+def sf_strfmt(ev, fmt, arg):
+    return VStr(z3.Function('strfmt', T.S, T.Val, T.S)(fmt.z, to_val(arg)))
+
+
+def sf_unchanged_slots(ev, obj):
+    return VBool(z3.And(z3.Select(ev.st.heap['slots'], obj.z) == z3.Select(ev.old.heap['slots'], obj.z),
+                        z3.Select(ev.st.heap['has'], obj.z) == z3.Select(ev.old.heap['has'], obj.z)))
+
+
+def sf_isprim(ev, v):
+    z = to_val(v)
+    return VBool(z3.Or(T.Val.is_VI(z), T.Val.is_VB(z), T.Val.is_VN(z), T.Val.is_VBy(z), T.Val.is_VS(z)))
 
 
 SPECFUNCS = {k[3:]: v for k, v in list(globals().items()) if k.startswith('sf_')}
